@@ -4,7 +4,7 @@
 # checks against it with output to a scratch verif dir (so /verif/evidence keeps describing the unchanged tree), and reverts.
 set -u
 patch=$1; shift
-wt=/tmp/seedrepo; sv=/tmp/seedverif
+wt=${SEEDTEST_WT:-/tmp/seedrepo}; sv=${wt}_verif
 (
 flock 9
 [ -d $wt ] || git -C /repo worktree add --detach $wt HEAD >/dev/null 2>&1
@@ -19,4 +19,4 @@ for p in "$@"; do
   echo "$out" | grep -E "^  rule=|VIOLATION|UNDECIDED|KNOWN" | cut -c1-400
 done
 git -C $wt checkout -q -- .
-) 9>/tmp/seedtest.lock
+) 9>${wt}.lock
